@@ -748,9 +748,9 @@ pub fn run(ctx: &mut Ctx, mode: FMode) -> RunResult {
     let mut w = build(ctx, mode)?;
     let max_msgs = match mode {
         FMode::C17 => 5 + ctx.ch.draw("op.count", 60) as usize,
-        _ => 5 + ctx.ch.draw("op.count", 36) as usize,
+        _ => 5 + ctx.ch.draw("op.count", if ctx.tier_thorough { 116 } else { 36 }) as usize,
     };
-    let max_app = 30;
+    let max_app = if ctx.tier_thorough { 90 } else { 30 };
     let mut jumps_left = if mode == FMode::C18 { 2 } else { 0 };
     loop {
         if w.cli.c.closed || !ctx.step() {
